@@ -296,6 +296,19 @@ func (rn *Runner) doStep(st Step) {
 			}
 			rn.bg(func() { c.Transfer(92, l, tgt) })
 		}
+	case "transfer-to-cut":
+		// hand the leadership to a voter that has just become unreachable: the transfer stays in
+		// progress until it times out
+		if l := c.Leader(); l != nil {
+			for _, nd := range c.Nodes {
+				if nd != l && nd.Cur() != nil && c.IsVoterNow(l, nd) {
+					tgt := nd
+					rn.cutOff(tgt)
+					rn.bg(func() { c.Transfer(92, l, tgt) })
+					break
+				}
+			}
+		}
 	case "restore":
 		if l := c.Leader(); l != nil {
 			in := l.Cur()
